@@ -91,8 +91,14 @@ BigT == {"1", "3", "4294967295"}
 Rems == {0, 1, 500, 1023}
 KiBOf(bytes) == bytes[1]
 NeedsRehashBytes(m, t, ops, membytes) == ~(t = ops /\ m = KiBOf(membytes))
-CostRows == {[m |-> m, t |-> t, ops |-> ops, memKiB |-> k, rem |-> r, needs |-> NeedsRehashBytes(m, t, ops, <<k, r>>)] :
-               m \in BigM, t \in BigT, ops \in BigT, k \in BigM, r \in Rems}
+\* what the caller may REQUEST is a 64-bit opslimit and a usize memlimit: requests whose low 32 bits coincide with a stored cost
+\* (2^32 + t, (2^32 + m) KiB) do not match it.  Such a request is outside the range hashing accepts, so the answer may be an
+\* error (libsodium's) - what it may not be is "no rehash needed".
+WideT == {"4294967297", "4294967299", "8589934591"}                         \* 2^32 + 1, 2^32 + 3, 2^33 - 1 (low words 1, 3, 2^32 - 1)
+WideM == {"4294967304", "4295032832", "8589934591"}                         \* 2^32 + 8, 2^32 + 65536, 2^33 - 1 KiB
+CostRows == {[m |-> m, t |-> t, ops |-> ops, memKiB |-> k, rem |-> r, needs |-> NeedsRehashBytes(m, t, ops, <<k, r>>),
+              wide |-> (ops \in WideT \/ k \in WideM)] :
+               m \in BigM, t \in BigT, ops \in BigT \cup WideT, k \in BigM \cup WideM, r \in Rems}
 \* the remainder never matters, and equal costs never need a rehash
 FloorIrrelevant == \A x \in CostRows : x.needs = (x.m # x.memKiB \/ x.t # x.ops)
 \* a parsed string re-encodes its cost fields unchanged whatever their size: the (m, t) pairs the harness parses and re-encodes
